@@ -210,4 +210,202 @@ theorem pickExit_mem (c : Rat) (legs : List (Nat × Rat)) (x : Nat × Rat)
     · simp only [Option.some.injEq] at h; rw [← h]; exact List.mem_cons_self ..
     · exact List.mem_cons_of_mem _ (ih _ h)
 
+/-! ### the Ising Hamiltonian as a `Ham` -/
+
+theorem length_two {α} {l : List α} (h : l.length = 2) : ∃ a b, l = [a, b] := by
+  match l, h with
+  | [a, b], _ => exact ⟨a, b, rfl⟩
+
+theorem length_one {α} {l : List α} (h : l.length = 1) : ∃ a, l = [a] := by
+  match l, h with
+  | [a], _ => exact ⟨a, rfl⟩
+
+/-- edges join two different variables below `nvars` (the generators' domain: no self loops) -/
+def IsingSpec.Valid (s : IsingSpec) : Prop :=
+  ∀ e, e ∈ s.edges → e.1 ≠ e.2.1 ∧ e.1 < s.nvars ∧ e.2.1 < s.nvars
+
+theorem IsingSpec.w_edge (s : IsingSpec) (b : Nat) (i o : List Bool) (hb : b < s.nedges) :
+    s.ham.w b i o = twoSite i o (s.J b) := by simp [IsingSpec.ham, hb]
+
+/-- transverse term: `Γ` on all four entries (any inputs, any outputs) -/
+theorem IsingSpec.w_transverse (s : IsingSpec) (b : Nat) (i o : List Bool) (h1 : s.nedges ≤ b)
+    (h2 : b < s.nedges + s.nvars) : s.ham.w b i o = s.gamma := by
+  have : ¬ b < s.nedges := by omega
+  simp [IsingSpec.ham, this, h2]
+
+theorem IsingSpec.w_longitudinal (s : IsingSpec) (b : Nat) (i o : List Bool)
+    (h2 : s.nedges + s.nvars ≤ b) : s.ham.w b i o = longitudinal i o s.h := by
+  have h1 : ¬ b < s.nedges := by omega
+  have h3 : ¬ b < s.nedges + s.nvars := by omega
+  simp [IsingSpec.ham, h1, h3]
+
+theorem IsingSpec.hamWF (s : IsingSpec) (hv : s.Valid) : HamWF s.ham s.nvars := by
+  intro b hb
+  by_cases h1 : b < s.nedges
+  · have hvars : s.ham.vars b = s.edgeVars b := by simp [IsingSpec.ham, h1]
+    rw [hvars]
+    unfold IsingSpec.edgeVars
+    have hlt : b < s.edges.length := h1
+    rw [List.getElem?_eq_getElem hlt]
+    obtain ⟨hne, hx, hy⟩ := hv _ (List.getElem_mem hlt)
+    generalize s.edges[b] = e at *
+    obtain ⟨x, y, j⟩ := e
+    simp only at hne hx hy ⊢
+    refine ⟨by simp [hne], ?_⟩
+    intro v hvm
+    simp only [List.mem_cons, List.not_mem_nil, or_false] at hvm
+    rcases hvm with rfl | rfl <;> assumption
+  · by_cases h2 : b < s.nedges + s.nvars
+    · have hvars : s.ham.vars b = [b - s.nedges] := by simp [IsingSpec.ham, h1, h2]
+      rw [hvars]
+      refine ⟨by simp, ?_⟩
+      intro v hvm
+      simp only [List.mem_cons, List.not_mem_nil, or_false] at hvm
+      omega
+    · have hvars : s.ham.vars b = [b - s.nedges - s.nvars] := by simp [IsingSpec.ham, h1, h2]
+      rw [hvars]
+      refine ⟨by simp, ?_⟩
+      intro v hvm
+      simp only [List.mem_cons, List.not_mem_nil, or_false] at hvm
+      have hnb : s.ham.nbonds = s.nedges + s.nvars + (if s.h = 0 then 0 else s.nvars) := rfl
+      rw [hnb] at hb
+      split at hb <;> omega
+
+theorem twoSite_mask_bool (a b a' b' c' d' : Bool) :
+    (a' = c' ∧ b' = d' ∧ xor a a' = xor b b') ↔
+    ((xorBits [a, b] [a', b'] == xorBits [a, b] [c', d']) &&
+      (xorBits [a, b] [a', b'] == [false, false] || xorBits [a, b] [a', b'] == [true, true])) = true := by
+  cases a <;> cases b <;> cases a' <;> cases b' <;> cases c' <;> cases d' <;> decide
+
+theorem long_mask_bool (x a' c' : Bool) :
+    (a' = x ∧ c' = x) ↔ ((xorBits [x] [a'] == [false]) && (xorBits [x] [c'] == [false])) = true := by
+  cases x <;> cases a' <;> cases c' <;> decide
+
+/-- **C07, concrete for the Ising Hamiltonian**: an edit of a legal stored operator (same bond,
+same variables) has a positive matrix element exactly when its flip mask is one of the allowed
+ones: two-site op — stays diagonal and both spins flip or none; transverse op — anything;
+longitudinal op — nothing may flip. -/
+theorem ising_flip_weight_iff (s : IsingSpec) (o o' : Op) (hl : o.LegalFor s.ham)
+    (hs : o.sameSkel o') :
+    0 < s.ham.w o'.bond o'.ins o'.outs ↔ isingMaskOpB s o o' = true := by
+  obtain ⟨hv, hb, _, hi, ho⟩ := hs
+  obtain ⟨l1, l2, l3, l4, l5, l6⟩ := hl
+  unfold isingMaskOpB
+  simp only [hb, ne_eq, not_true_eq_false, ite_false]
+  by_cases h1 : o.bond < s.nedges
+  · simp only [h1, ite_true]
+    rw [IsingSpec.w_edge s _ _ _ h1] at l6 ⊢
+    obtain ⟨a, b, ha, hbb, _⟩ := twoSite_pos_shape l6
+    rw [ha] at hi; rw [hbb] at ho
+    obtain ⟨a', b', hi'⟩ := length_two hi
+    obtain ⟨c', d', ho'⟩ := length_two ho
+    rw [ha, hbb] at l6
+    rw [hi', ho', ha, hbb, twoSite_flip_iff a b a' b' c' d' _ l6]
+    exact twoSite_mask_bool a b a' b' c' d'
+  · simp only [h1, ite_false]
+    by_cases h2 : o.bond < s.nedges + s.nvars
+    · simp only [h2, ite_true]
+      rw [IsingSpec.w_transverse s _ _ _ (by omega) h2] at l6 ⊢
+      simp [l6]
+    · simp only [h2, ite_false]
+      rw [IsingSpec.w_longitudinal s _ _ _ (by omega)] at l6 ⊢
+      have hshape : ∃ x, o.ins = [x] ∧ o.outs = [x] := by
+        rcases (longitudinal_pos_iff _ _ _).mp l6 with ⟨h3, h4, _⟩ | ⟨h3, h4, _⟩
+        · exact ⟨true, h3, h4⟩
+        · exact ⟨false, h3, h4⟩
+      obtain ⟨x, hx1, hx2⟩ := hshape
+      rw [hx1] at hi; rw [hx2] at ho
+      obtain ⟨a', hi'⟩ := length_one hi
+      obtain ⟨c', ho'⟩ := length_one ho
+      rw [hx1, hx2, hi', ho', ← long_mask_bool x a' c']
+      rw [hx1, hx2] at l6
+      constructor
+      · intro hpos
+        by_cases hne : [a'] ≠ [x] ∨ [c'] ≠ [x]
+        · have := longitudinal_flip_zero [x] [x] [a'] [c'] s.h l6 rfl rfl hne
+          rw [this] at hpos; exact absurd hpos (lt_irrefl _)
+        · have h5 : [a'] = [x] := by
+            by_cases h : [a'] = [x]
+            · exact h
+            · exact absurd (Or.inl h) hne
+          have h6 : [c'] = [x] := by
+            by_cases h : [c'] = [x]
+            · exact h
+            · exact absurd (Or.inr h) hne
+          simp only [List.cons.injEq, and_true] at h5 h6
+          exact ⟨h5, h6⟩
+      · rintro ⟨rfl, rfl⟩; exact l6
+
+/-- Ising: allowed masks keep every changed operator's weight positive -/
+theorem isingMask_flipKeepsWeight (s : IsingSpec) {b a : Slots} (hs : SameSkeleton b a)
+    (hm : isingMaskB s b a = true) (hl : ∀ o, some o ∈ b → o.LegalFor s.ham) :
+    FlipKeepsWeight s.ham b a := by
+  induction hs with
+  | nil => simp [FlipKeepsWeight]
+  | none _ ih =>
+    simp only [FlipKeepsWeight]
+    exact ih (by simpa [isingMaskB] using hm) (fun o ho => hl o (List.mem_cons_of_mem _ ho))
+  | some o o' hsk _ _ ih =>
+    simp only [isingMaskB, Bool.and_eq_true] at hm
+    simp only [FlipKeepsWeight]
+    refine ⟨Or.inr ?_, ih hm.2 (fun o ho => hl o (List.mem_cons_of_mem _ ho))⟩
+    exact (ising_flip_weight_iff s o o' (hl o (List.mem_cons_self ..)) hsk).mpr hm.1
+
+/-- the converse for one position: a forbidden mask (e.g. a flipped longitudinal op, a two-site
+op with one spin flipped) makes the configuration illegal -/
+theorem ising_forbidden_mask_illegal (s : IsingSpec) (o o' : Op) (hl : o.LegalFor s.ham)
+    (hs : o.sameSkel o') (hm : isingMaskOpB s o o' = false) : ¬ o'.LegalFor s.ham := by
+  intro h
+  have := (ising_flip_weight_iff s o o' hl hs).mp h.2.2.2.2.2
+  rw [hm] at this; cases this
+
+/-! ### replicas of one lattice: same support (what `can_swap_managers` checks) -/
+
+/-- same lattice, couplings and field of the same sign, positive transverse field -/
+def IsingSpec.SameSigns (s s' : IsingSpec) : Prop :=
+  s'.nvars = s.nvars ∧ s'.nedges = s.nedges ∧
+  (∀ b, b < s.nedges → s'.edgeVars b = s.edgeVars b ∧ (s.J b < 0 → s'.J b < 0) ∧ (0 < s.J b → 0 < s'.J b)) ∧
+  0 < s'.gamma ∧ (s.h < 0 → s'.h < 0) ∧ (0 < s.h → 0 < s'.h) ∧ (s.h = 0 ↔ s'.h = 0)
+
+theorem ising_supportLe (s s' : IsingSpec) (h : s.SameSigns s') : SupportLe s.ham s'.ham := by
+  obtain ⟨hn, he, hedge, hg, hneg, hpos, hz⟩ := h
+  intro b hb
+  have hnb : s.ham.nbonds = s.nedges + s.nvars + (if s.h = 0 then 0 else s.nvars) := rfl
+  have hnb' : s'.ham.nbonds = s'.nedges + s'.nvars + (if s'.h = 0 then 0 else s'.nvars) := rfl
+  have hb' : b < s'.ham.nbonds := by
+    rw [hnb'] ; rw [hnb] at hb
+    by_cases h0 : s.h = 0
+    · have h0' := hz.mp h0; simp only [h0, h0', ite_true] at hb ⊢; omega
+    · have h0' : ¬ s'.h = 0 := fun x => h0 (hz.mpr x)
+      simp only [h0, h0', ite_false] at hb ⊢; omega
+  refine ⟨hb', ?_, ?_, ?_⟩
+  · by_cases h1 : b < s.nedges
+    · have h1' : b < s'.nedges := by omega
+      simp only [IsingSpec.ham, h1, h1', ite_true]
+      exact (hedge b h1).1
+    · have h1' : ¬ b < s'.nedges := by omega
+      by_cases h2 : b < s.nedges + s.nvars
+      · simp only [IsingSpec.ham, he, hn, h1, h2, ite_true, ite_false]
+      · simp only [IsingSpec.ham, he, hn, h1, h2, ite_false]
+  · simp only [IsingSpec.ham, he, hn]
+  · intro i o hw
+    by_cases h1 : b < s.nedges
+    · rw [IsingSpec.w_edge s b i o h1] at hw
+      rw [IsingSpec.w_edge s' b i o (by omega)]
+      obtain ⟨x, y, rfl, rfl, hs⟩ := twoSite_pos_shape hw
+      rw [twoSite_pos_iff]
+      refine ⟨rfl, rfl, ?_⟩
+      rcases hs with ⟨h3, h4⟩ | ⟨h3, h4⟩
+      · exact Or.inl ⟨h3, (hedge b h1).2.1 h4⟩
+      · exact Or.inr ⟨h3, (hedge b h1).2.2 h4⟩
+    · by_cases h2 : b < s.nedges + s.nvars
+      · rw [IsingSpec.w_transverse s' b i o (by omega) (by omega)]
+        exact hg
+      · rw [IsingSpec.w_longitudinal s b i o (by omega)] at hw
+        rw [IsingSpec.w_longitudinal s' b i o (by omega)]
+        rw [longitudinal_pos_iff] at hw ⊢
+        rcases hw with ⟨h3, h4, h5⟩ | ⟨h3, h4, h5⟩
+        · exact Or.inl ⟨h3, h4, hpos h5⟩
+        · exact Or.inr ⟨h3, h4, hneg h5⟩
+
 end Qmc
